@@ -1,1 +1,541 @@
-/- property theorems for C20 (filled in below) -/
+/-
+C20 — CP¹ points, disks and Möbius maps are consistent on the Riemann sphere.
+Only property theorems and non-vacuity examples; helpers are in `GT.Lemmas.CP1`.
+Model: `GT.Model.CP1` (complex numbers as pairs over an ordered field `K`; executed over ℚ(i)).
+-/
+import GT.Lemmas.CP1
+import Mathlib.Tactic.NormNum
+
+set_option linter.unusedSectionVars false
+set_option linter.unusedVariables false
+set_option linter.unusedSimpArgs false
+namespace GT.C20
+open GT GT.CP1 GT.CP1.Cx
+
+/-! ## spherical and homogeneous coordinates are inverse to each other -/
+
+section sphere
+variable {K : Type*} [Field K] [LinearOrder K] [IsStrictOrderedRing K]
+
+/-- `projective_to_spherical ∘ spherical_to_projective = id` on the unit sphere, both charts,
+poles included (`z = 1` is the point at infinity `[0 : 2]`) -/
+theorem spherical_projective_inverse (x y z : K) (h : x * x + y * y + z * z = 1) :
+    p2s (s2p x y z).1 (s2p x y z).2 = (x, y, z) := by
+  unfold s2p
+  split_ifs with hz
+  · -- chart 2: (x - iy, 1 + z)
+    have hn : x * x + y * y + (1 + z) * (1 + z) = 2 * (1 + z) := by linear_combination h
+    have h1 : (1 + z) ≠ 0 := by linarith
+    have h2 : (2 : K) ≠ 0 := two_ne_zero
+    simp only [p2s, normSq, conj_re, conj_im, ofReal_re, ofReal_im, mul_re, mul_im, inv_re, inv_im]
+    have e : x * x + -y * -y + ((1 + z) * (1 + z) + 0 * 0) = 2 * (1 + z) := by linear_combination h
+    simp only [e]
+    refine Prod.ext ?_ (Prod.ext ?_ ?_)
+    · simp; field_simp
+    · simp; field_simp
+    · simp; field_simp; linear_combination (-1 : K) * h
+  · have h1 : (1 - z) ≠ 0 := by
+      intro h0
+      have hz1 : z = 1 := by linarith
+      exact hz (by rw [hz1]; exact one_pos)
+    have h2 : (2 : K) ≠ 0 := two_ne_zero
+    simp only [p2s, normSq, conj_re, conj_im, ofReal_re, ofReal_im, mul_re, mul_im, inv_re, inv_im]
+    have e : (1 - z) * (1 - z) + 0 * 0 + (x * x + y * y) = 2 * (1 - z) := by linear_combination h
+    simp only [e]
+    refine Prod.ext ?_ (Prod.ext ?_ ?_)
+    · simp; field_simp
+    · simp; field_simp
+    · simp; field_simp; linear_combination h
+
+
+theorem p2s_on_sphere (z0 z1 : Cx K) (h : z0 ≠ 0 ∨ z1 ≠ 0) :
+    (p2s z0 z1).1 * (p2s z0 z1).1 + (p2s z0 z1).2.1 * (p2s z0 z1).2.1
+      + (p2s z0 z1).2.2 * (p2s z0 z1).2.2 = 1 := by
+  have hn := (normSq_pos_of z0 z1 h).ne'
+  rw [p2s_eq z0 z1 hn]
+  simp only
+  have key : (2 * (z0.re * z1.re + z0.im * z1.im)) ^ 2 + (2 * (z0.re * z1.im - z0.im * z1.re)) ^ 2
+      + (normSq z1 - normSq z0) ^ 2 = (normSq z0 + normSq z1) ^ 2 := by unfold normSq; ring
+  generalize normSq z0 + normSq z1 = N at *
+  field_simp
+  linear_combination key
+
+theorem projective_spherical_inverse (z0 z1 : Cx K) (h : z0 ≠ 0 ∨ z1 ≠ 0) :
+    ∃ c : Cx K, c ≠ 0 ∧
+      s2p (p2s z0 z1).1 (p2s z0 z1).2.1 (p2s z0 z1).2.2 = (c * z0, c * z1) := by
+  have h0 := normSq_nonneg z0
+  have h1 := normSq_nonneg z1
+  have hn := normSq_pos_of z0 z1 h
+  have hn' := hn.ne'
+  rw [p2s_eq z0 z1 hn']
+  unfold s2p
+  simp only
+  split_ifs with hz
+  · have hz1 : normSq z1 ≠ 0 := by
+      intro hc
+      rw [hc] at hz
+      have : (0 - normSq z0) / (normSq z0 + 0) ≤ 0 :=
+        div_nonpos_of_nonpos_of_nonneg (by linarith) (by linarith)
+      rw [hc] at hn
+      simp at hz this
+      linarith
+    refine ⟨ofReal (2 / (normSq z0 + normSq z1)) * conj z1, ?_, ?_⟩
+    · rw [cx_ne_zero_iff]
+      intro hh
+      apply hz1
+      have : normSq (ofReal (2 / (normSq z0 + normSq z1)) * conj z1)
+          = (2 / (normSq z0 + normSq z1)) ^ 2 * normSq z1 := by
+        simp [normSq]; ring
+      rw [this] at hh
+      rcases mul_eq_zero.1 hh with h | h
+      · exfalso; have : (2 : K) / (normSq z0 + normSq z1) ≠ 0 := by positivity
+        exact this (by simpa using h)
+      · exact h
+    · generalize hN : normSq z0 + normSq z1 = N at *
+      have hN' : z0.re * z0.re + z0.im * z0.im + (z1.re * z1.re + z1.im * z1.im) = N := hN
+      refine Prod.ext (Cx.ext ?_ ?_) (Cx.ext ?_ ?_)
+      · simp; field_simp; try ring
+      · simp; field_simp; try ring
+      · simp [normSq]; field_simp; linear_combination (-1:K) * hN'
+      · simp; field_simp; try ring
+  · have hz0 : normSq z0 ≠ 0 := by
+      intro hc
+      apply hz
+      rw [hc]; simp
+      have : 0 < normSq z1 := by rw [hc] at hn; linarith
+      positivity
+    refine ⟨ofReal (2 / (normSq z0 + normSq z1)) * conj z0, ?_, ?_⟩
+    · rw [cx_ne_zero_iff]
+      intro hh
+      apply hz0
+      have : normSq (ofReal (2 / (normSq z0 + normSq z1)) * conj z0)
+          = (2 / (normSq z0 + normSq z1)) ^ 2 * normSq z0 := by
+        simp [normSq]; ring
+      rw [this] at hh
+      rcases mul_eq_zero.1 hh with h | h
+      · exfalso; have : (2 : K) / (normSq z0 + normSq z1) ≠ 0 := by positivity
+        exact this (by simpa using h)
+      · exact h
+    · generalize hN : normSq z0 + normSq z1 = N at *
+      have hN' : z0.re * z0.re + z0.im * z0.im + (z1.re * z1.re + z1.im * z1.im) = N := hN
+      refine Prod.ext (Cx.ext ?_ ?_) (Cx.ext ?_ ?_)
+      · simp [normSq]; field_simp; linear_combination (-1:K) * hN'
+      · simp; field_simp; try ring
+      · simp; field_simp; try ring
+      · simp; field_simp; try ring
+
+theorem spherical_stereographic (x y z : K) (h : x * x + y * y + z * z = 1) (hz : z ≠ 1) :
+    affine (s2p x y z) = stereo x y z := by
+  have h1 : 1 - z ≠ 0 := fun h0 => hz (by linarith)
+  unfold s2p affine stereo
+  split_ifs with hp
+  · have hxy : x * x + y * y ≠ 0 := by
+      have : x * x + y * y = (1 - z) * (1 + z) := by linear_combination h
+      rw [this]; exact mul_ne_zero h1 (by linarith)
+    have hxy2 : x ^ 2 + y ^ 2 ≠ 0 := by rw [sq, sq]; exact hxy
+    have hxy3 : y ^ 2 + x ^ 2 ≠ 0 := by rw [add_comm]; exact hxy2
+    apply Cx.ext
+    · simp [normSq]; field_simp
+      first | linear_combination (-x) * h | linear_combination x * h
+    · simp [normSq]; field_simp
+      first | linear_combination (-y) * h | linear_combination y * h
+  · apply Cx.ext
+    · simp [normSq]; field_simp
+    · simp [normSq]; field_simp
+
+end sphere
+
+/-! ## a disk built from (centre, radius) reports that centre and radius -/
+
+section disk
+variable {K : Type*} [Field K] [LinearOrder K] [IsStrictOrderedRing K]
+
+theorem disk_params (c u : K × K) (r : K) (hu : u.1 * u.1 + u.2 * u.2 = 1) (hr : r ≠ 0) :
+    circleParams (diskPoints c u r) = (c, r * r) := by
+  unfold circleParams diskPoints
+  apply circleThrough_eq
+  · simp only
+    have : (c.1 - r * u.1 - (c.1 + r * u.1)) * (c.2 + r * u.1 - (c.2 + r * u.2))
+        - (c.1 + r * -u.2 - (c.1 + r * u.1)) * (c.2 - r * u.2 - (c.2 + r * u.2))
+        = -2 * (r * r) * (u.1 * u.1 + u.2 * u.2) := by ring
+    rw [this, hu]; simp [hr]
+  · unfold dist2; simp only; linear_combination (r * r) * hu
+  · unfold dist2; simp only; linear_combination (r * r) * hu
+  · unfold dist2; simp only; linear_combination (r * r) * hu
+
+/-- REPAIRED constructor: a disk built from `(centre, r)` reports that centre and radius -/
+theorem disk_params_repaired {ρ : K → K} (hρ : IsSqrt ρ) (c : K × K) (r : K) (hr : r ≠ 0) :
+    circleParams (diskFromCentre ρ c r) = (c, r * r) :=
+  disk_params c _ r (unitDir_unit hρ c) hr
+
+/-- PINNED constructor (D9): the reported centre is the *normalised* centre -/
+theorem disk_params_pinned {ρ : K → K} (hρ : IsSqrt ρ) (c : K × K) (r : K) (hr : r ≠ 0) :
+    circleParams (diskFromCentrePinned ρ c r) = (unitDir ρ c, r * r) :=
+  disk_params _ _ r (unitDir_unit hρ c) hr
+
+/-- … which is the requested centre only when that already has modulus 1 -/
+theorem disk_params_pinned_wrong {ρ : K → K} (hρ : IsSqrt ρ) (c : K × K) (r : K) (hr : r ≠ 0)
+    (hc : c.1 * c.1 + c.2 * c.2 ≠ 1) :
+    (circleParams (diskFromCentrePinned ρ c r)).1 ≠ c := by
+  rw [disk_params_pinned hρ c r hr]
+  intro h
+  have := unitDir_unit hρ c
+  simp only at h
+  rw [h] at this
+  exact hc this
+
+theorem centreInside_repaired {ρ : K → K} (hρ : IsSqrt ρ) (c : K × K) (r : K) (hr : r ≠ 0) :
+    centreInside (diskFromCentre ρ c r) = true := by
+  unfold centreInside
+  rw [disk_params_repaired hρ c r hr]
+  simp [diskFromCentre, diskPoints]
+  exact hr
+
+end disk
+
+/-! ## Möbius maps, cross-ratio, inversion in the boundary circle -/
+
+section mobius
+variable {F : Type*} [Field F]
+
+theorem crossRatio_mobius (M : M2 F) (hM : M.det ≠ 0) (p1 p2 p3 p4 : F × F) :
+    crossRatio (act M p1) (act M p2) (act M p3) (act M p4) = crossRatio p1 p2 p3 p4 := by
+  unfold crossRatio
+  simp only [wedge_act]
+  by_cases h : wedge p1 p4 * wedge p2 p3 = 0
+  · have : M.det * wedge p1 p4 * (M.det * wedge p2 p3) = 0 := by
+      have : M.det * wedge p1 p4 * (M.det * wedge p2 p3) = M.det * M.det * (wedge p1 p4 * wedge p2 p3) := by ring
+      rw [this, h, mul_zero]
+    rw [h, this, div_zero, div_zero]
+  · have h1 : wedge p1 p4 ≠ 0 := left_ne_zero_of_mul h
+    have h2 : wedge p2 p3 ≠ 0 := right_ne_zero_of_mul h
+    field_simp
+
+theorem crossRatio_smul (c1 c2 c3 c4 : F) (h1 : c1 ≠ 0) (h2 : c2 ≠ 0) (h3 : c3 ≠ 0) (h4 : c4 ≠ 0)
+    (p1 p2 p3 p4 : F × F) :
+    crossRatio (c1 * p1.1, c1 * p1.2) (c2 * p2.1, c2 * p2.2) (c3 * p3.1, c3 * p3.2) (c4 * p4.1, c4 * p4.2)
+      = crossRatio p1 p2 p3 p4 := by
+  unfold crossRatio wedge
+  simp only
+  by_cases h : (p1.1 * p4.2 - p1.2 * p4.1) * (p2.1 * p3.2 - p2.2 * p3.1) = 0
+  · have e : (c1 * p1.1 * (c4 * p4.2) - c1 * p1.2 * (c4 * p4.1)) * (c2 * p2.1 * (c3 * p3.2) - c2 * p2.2 * (c3 * p3.1))
+        = c1 * c2 * c3 * c4 * ((p1.1 * p4.2 - p1.2 * p4.1) * (p2.1 * p3.2 - p2.2 * p3.1)) := by ring
+    rw [e, h]; simp
+  · have h1' := left_ne_zero_of_mul h
+    have h2' := right_ne_zero_of_mul h
+    have e1 : c1 * p1.1 * (c4 * p4.2) - c1 * p1.2 * (c4 * p4.1) = c1 * c4 * (p1.1 * p4.2 - p1.2 * p4.1) := by ring
+    have e2 : c2 * p2.1 * (c3 * p3.2) - c2 * p2.2 * (c3 * p3.1) = c2 * c3 * (p2.1 * p3.2 - p2.2 * p3.1) := by ring
+    rw [e1, e2]
+    field_simp
+
+/-- the inversion in the boundary circle is an involution -/
+theorem inversion_involution (B : M2 F) (hB : B.det ≠ 0) :
+    (inversionM B).mul (inversionM B) = M2.one := by
+  rw [inversionM_eq]
+  calc (B.mul (J.mul B.inv)).mul (B.mul (J.mul B.inv))
+      = B.mul (J.mul ((B.inv.mul B).mul (J.mul B.inv))) := by simp only [M2.mul_assoc']
+    _ = B.mul ((J.mul J).mul B.inv) := by rw [M2.inv_mul_self B hB, M2.one_mul, M2.mul_assoc']
+    _ = M2.one := by rw [J_mul_J, M2.one_mul, M2.mul_inv_self B hB]
+
+/-- the square root taken by `to_standard_triple` cancels out of the inversion -/
+theorem inversion_indep_root (p1 p2 : F × F) (ev : F) (hev : ev ≠ 0)
+    (hdet : (M2.ofRows p1 p2).det ≠ 0) :
+    inversionM (stdTriple p1 p2 ev) = (M2.ofRows p1 p2).inv.mul (J.mul (M2.ofRows p1 p2)) := by
+  set P := M2.ofRows p1 p2 with hP
+  have hPi : P.inv.det ≠ 0 := by
+    have h1 := M2.det_mul P P.inv
+    rw [M2.mul_inv_self P hdet] at h1
+    intro h0; rw [h0, mul_zero] at h1
+    simp [M2.one, M2.det] at h1
+  have hDd : (⟨ev, 0, 0, 1 / ev⟩ : M2 F).det ≠ 0 := by simp [M2.det, hev]
+  have hPii : P.inv.inv = P := by
+    have h1 : P.inv.inv = (P.mul P.inv).mul P.inv.inv := by rw [M2.mul_inv_self P hdet, M2.one_mul]
+    rw [h1, M2.mul_assoc', M2.mul_inv_self P.inv hPi, M2.mul_one]
+  have hDJ : (⟨ev, 0, 0, 1 / ev⟩ : M2 F).mul (J.mul (⟨ev, 0, 0, 1 / ev⟩ : M2 F).inv) = J := by
+    ext <;> simp [M2.mul, M2.inv, M2.det, J] <;> field_simp
+  rw [inversionM_eq, stdTriple_eq, M2.inv_mul _ _ hPi hDd, hPii]
+  calc (P.inv.mul ⟨ev, 0, 0, 1 / ev⟩).mul (J.mul ((⟨ev, 0, 0, 1 / ev⟩ : M2 F).inv.mul P))
+      = P.inv.mul (((⟨ev, 0, 0, 1 / ev⟩ : M2 F).mul (J.mul (⟨ev, 0, 0, 1 / ev⟩ : M2 F).inv)).mul P) := by
+        simp only [M2.mul_assoc']
+    _ = _ := by rw [hDJ]
+
+
+/-- taking the complement twice returns the original disk (exactly, in exact arithmetic) -/
+theorem complement_involution (ev : F) (hev : ev ≠ 0) (d : (F × F) × (F × F) × (F × F) × (F × F))
+    (hdet : (M2.ofRows d.1 d.2.1).det ≠ 0) :
+    complement ev (complement ev d) = d := by
+  obtain ⟨p1, p2, p3, q⟩ := d
+  simp only [complement]
+  have hS : (stdTriple p1 p2 ev).det ≠ 0 := by
+    rw [stdTriple_eq, M2.det_mul]
+    have h1 := M2.det_mul (M2.ofRows p1 p2) (M2.ofRows p1 p2).inv
+    rw [M2.mul_inv_self _ hdet] at h1
+    have hi : (M2.ofRows p1 p2).inv.det ≠ 0 := by
+      intro h0; rw [h0, mul_zero] at h1; simp [M2.one, M2.det] at h1
+    exact mul_ne_zero hi (by simp [M2.det, hev])
+  rw [act_mul, inversion_involution _ hS, act_one]
+
+theorem act_ofRows (p1 p2 v : F × F) :
+    act (M2.ofRows p1 p2) v = (v.1 * p1.1 + v.2 * p2.1, v.1 * p1.2 + v.2 * p2.2) := rfl
+
+theorem wedge_comb1 (p1 p2 : F × F) (s t : F) :
+    wedge p1 (s * p1.1 + t * p2.1, s * p1.2 + t * p2.2) = t * wedge p1 p2 := by
+  unfold wedge; ring
+
+theorem wedge_comb2 (p1 p2 : F × F) (s t : F) :
+    wedge p2 (s * p1.1 + t * p2.1, s * p1.2 + t * p2.2) = -s * wedge p1 p2 := by
+  unfold wedge; ring
+
+/-- in the coordinates of `to_standard_triple` the boundary circle is the real line and the
+inversion is `z ↦ -z`: it negates the cross-ratio with the boundary triple.  Hence it maps the
+boundary circle to itself (real stays real) and exchanges its two sides (the imaginary part of
+the cross-ratio changes sign) — the complement's interior point lies on the other side. -/
+theorem inversion_crossRatio_neg (p1 p2 p3 q : F × F) (ev : F) (hev : ev ≠ 0)
+    (hdet : (M2.ofRows p1 p2).det ≠ 0) :
+    crossRatio p1 p2 p3 (act (inversionM (stdTriple p1 p2 ev)) q) = -crossRatio p1 p2 p3 q := by
+  rw [inversion_indep_root p1 p2 ev hev hdet]
+  set P := M2.ofRows p1 p2 with hP
+  set q' := act P.inv q with hq'
+  have hq : q = act P q' := by rw [hq', act_mul, M2.inv_mul_self P hdet, act_one]
+  have hinv : act (P.inv.mul (J.mul P)) q = act P (act J q') := by
+    rw [hq', act_mul, act_mul]
+  have hJ : act (J : M2 F) q' = (q'.1, -q'.2) := by
+    unfold act J; ext <;> simp
+  rw [hinv, hJ]
+  conv_rhs => rw [hq]
+  rw [hP, act_ofRows, act_ofRows]
+  unfold crossRatio
+  simp only [wedge_comb1, wedge_comb2]
+  rw [neg_mul q'.2, neg_mul (q'.2 * wedge p1 p2), div_neg]
+
+end mobius
+
+/-! ## containment / intersection: the case analysis on which disks contain ∞ -/
+
+section logic
+variable {K : Type*} [Field K] [LinearOrder K] [IsStrictOrderedRing K]
+
+/-- PARTIAL: the boolean `contains` leaves for one pair equals the inequality on
+`(d, r₁, r₂)` written out per case in `containsSpec`.  Missing for the full clause ("agrees with
+the set-theoretic answer"): that `containsSpec` characterises `D_o ⊆ D_s` for the open disks /
+complements of closed disks (triangle inequality in the plane; covered only by the sampled
+set-theoretic oracle of props/C20.py). -/
+theorem contains_logic_partial (sAff oAff : Bool) (d r1 r2 : K) :
+    containsUnit sAff oAff (interactions d r1 r2) = true ↔ containsSpec sAff oAff d r1 r2 := by
+  cases sAff <;> cases oAff <;>
+    simp only [containsUnit, interactions, containsSpec, Bool.and_self, Bool.not_true, Bool.not_false,
+      Bool.and_true, Bool.and_false, Bool.false_eq_true, if_true, if_false, decide_eq_true_eq,
+      Bool.not_eq_true', decide_eq_false_iff_not, not_lt, iff_false, not_false_eq_true] <;>
+    constructor <;> intro h <;> linarith
+
+/-- PARTIAL: as `contains_logic_partial`, for `intersects` (repaired masks) and
+`intersectsSpec`; the characterisation of `D_s ∩ D_o ≠ ∅` by `intersectsSpec` is not proved. -/
+theorem intersects_logic_partial (sAff oAff : Bool) (d r1 r2 : K) :
+    intersectsUnit sAff oAff (interactions d r1 r2) = true ↔ intersectsSpec sAff oAff d r1 r2 := by
+  cases sAff <;> cases oAff <;>
+    simp only [intersectsUnit, interactions, intersectsSpec, Bool.and_self, Bool.not_true, Bool.not_false,
+      Bool.and_true, Bool.and_false, Bool.false_eq_true, if_true, if_false, decide_eq_true_eq,
+      Bool.not_eq_true', decide_eq_false_iff_not, not_lt, iff_true, not_false_eq_true]
+  · constructor <;> intro h <;> linarith
+  · constructor <;> intro h <;> linarith
+  · constructor <;> intro h <;> linarith
+
+end logic
+
+theorem containsElem_eq (l : List Unit5) :
+    containsElem (sAffs l) (oAffs l) (contains_ l) (containeds l) (intersects_ l)
+      = .ok (l.map fun u => containsUnit u.1 u.2.1 (u.2.2.1, u.2.2.2.1, u.2.2.2.2)) := by
+  unfold containsElem
+  have hl : ∀ f : Unit5 → Bool, (l.map f).length = l.length := fun f => List.length_map _
+  simp only [sAffs, oAffs, contains_, containeds, intersects_]
+  rw [maskAssign_maskSelect _ _ _ (by simp [band, bnot]) (by simp [band, bnot])]
+  simp only [bind, Except.bind]
+  rw [maskAssign_maskSelect _ _ _ (by simp [band, bnot, putmask]) (by simp [band, bnot])]
+  simp only [bind, Except.bind]
+  rw [maskAssign_maskSelect _ _ _ (by simp [band, bnot, putmask]) (by simp [band, bnot])]
+  congr 1
+  clear hl
+  induction l with
+  | nil => rfl
+  | cons u us ih =>
+    obtain ⟨a, b, c, d, e⟩ := u
+    simp only [List.map_cons, List.length_cons, List.replicate_succ, band, bnot, putmask,
+      List.zipWith_cons_cons, List.zip_cons_cons] at ih ⊢
+    rw [List.cons.injEq]
+    refine ⟨?_, ih⟩
+    cases a <;> cases b <;> simp [containsUnit]
+
+
+/-- REPAIRED `intersects(other, "elementwise")` on arrays: every position gets the unit answer -/
+theorem intersectsElem_eq (l : List Unit5) :
+    intersectsElem (sAffs l) (oAffs l) (contains_ l) (containeds l) (intersects_ l)
+      = .ok (l.map fun u => intersectsUnit u.1 u.2.1 (u.2.2.1, u.2.2.2.1, u.2.2.2.2)) := by
+  unfold intersectsElem
+  simp only [sAffs, oAffs, contains_, containeds, intersects_]
+  rw [maskAssign_maskSelect _ _ _ (by simp [band, bnot]) (by simp [band, bnot])]
+  simp only [bind, Except.bind]
+  rw [maskAssign_maskSelect _ _ _ (by simp [band, bnot, putmask]) (by simp [band, bnot])]
+  simp only [bind, Except.bind]
+  rw [maskAssign_maskSelect _ _ _ (by simp [band, bnot, putmask]) (by simp [band, bnot])]
+  congr 1
+  induction l with
+  | nil => rfl
+  | cons u us ih =>
+    obtain ⟨a, b, c, d, e⟩ := u
+    simp only [List.map_cons, List.length_cons, List.replicate_succ, band, bnot, putmask,
+      List.zipWith_cons_cons, List.zip_cons_cons] at ih ⊢
+    rw [List.cons.injEq]
+    refine ⟨?_, ih⟩
+    cases a <;> cases b <;> simp [intersectsUnit]
+
+/-- PINNED `intersects` (D9): for one bounded disk against one unbounded disk the third
+assignment has no value to assign and NumPy raises; with two pairs it silently reads the
+answer of the *other* pair -/
+theorem intersectsElemPinned_wrong :
+    intersectsElemPinned [true] [false] [false] [false] [true] = .error .valueError ∧
+    intersectsElemPinned [true, false] [false, false] [false, false] [false, true] [true, true]
+      = .ok [false, true] ∧
+    intersectsElem [true, false] [false, false] [false, false] [false, true] [true, true]
+      = .ok [true, true] := by decide
+
+/-- `putmask` with the outer-product masks gives every pair `(i, j)` its unit answer -/
+theorem containsPair_unit (s o : Bool) (t : Bool × Bool × Bool) :
+    containsPair [s] [o] [t.1] [t.2.1] [t.2.2] = [containsUnit s o t] ∧
+    intersectsPair [s] [o] [t.1] [t.2.1] [t.2.2] = [intersectsUnit s o t] := by
+  obtain ⟨a, b, c⟩ := t
+  cases s <;> cases o <;> cases a <;> cases b <;> cases c <;> decide
+
+section side
+variable {K : Type*} [Field K] [LinearOrder K] [IsStrictOrderedRing K]
+
+/-- `q` lies on the circle through `p1, p2, p3` (cross-ratio real) -/
+def OnCircle (p1 p2 p3 q : Cx K × Cx K) : Prop := (crossRatio p1 p2 p3 q).im = 0
+/-- `q` and `q'` lie strictly on the same side of the circle through `p1, p2, p3` -/
+def SameSide (p1 p2 p3 q q' : Cx K × Cx K) : Prop :=
+  0 < (crossRatio p1 p2 p3 q).im * (crossRatio p1 p2 p3 q').im
+
+/-- a Möbius map sends the boundary circle to the circle through the image triple and the
+side of the interior point to the side of the image interior point -/
+theorem mobius_concyclic (M : M2 (Cx K)) (hM : M.det ≠ 0) (p1 p2 p3 q q' : Cx K × Cx K) :
+    (OnCircle (act M p1) (act M p2) (act M p3) (act M q) ↔ OnCircle p1 p2 p3 q) ∧
+    (SameSide (act M p1) (act M p2) (act M p3) (act M q) (act M q') ↔ SameSide p1 p2 p3 q q') := by
+  unfold OnCircle SameSide
+  rw [crossRatio_mobius M hM, crossRatio_mobius M hM]
+  exact ⟨Iff.rfl, Iff.rfl⟩
+
+/-- the complement's interior point is on the other side of the same circle -/
+theorem complement_other_side (p1 p2 p3 q : Cx K × Cx K) (ev : Cx K) (hev : ev ≠ 0)
+    (hdet : (M2.ofRows p1 p2).det ≠ 0) (hq : ¬ OnCircle p1 p2 p3 q) :
+    (crossRatio p1 p2 p3 (complement ev (p1, p2, p3, q)).2.2.2).im
+      * (crossRatio p1 p2 p3 q).im < 0 := by
+  simp only [complement]
+  rw [inversion_crossRatio_neg p1 p2 p3 q ev hev hdet]
+  unfold OnCircle at hq
+  have : (-(crossRatio p1 p2 p3 q)).im = -(crossRatio p1 p2 p3 q).im := rfl
+  rw [this]
+  nlinarith [mul_self_pos.2 hq]
+
+/-- **cross-ratio and Euclidean circle**: for finite points the imaginary part of the
+cross-ratio is `-det · (|z4 - c|² - R)` over a positive quantity, where `(c, R)` is what
+`circle_through(z1, z2, z3)` returns and `det` the determinant it divides by.  So the
+cross-ratio is real exactly on that circle, and its sign separates inside from outside. -/
+theorem crossRatio_im_circle (z1 z2 z3 z4 : Cx K)
+    (hdet : (z2.re - z1.re) * (z3.im - z1.im) - (z3.re - z1.re) * (z2.im - z1.im) ≠ 0)
+    (hden : normSq ((z4 - z1) * (z3 - z2)) ≠ 0) :
+    (crossRatio (1, z1) (1, z2) (1, z3) (1, z4)).im * normSq ((z4 - z1) * (z3 - z2))
+      = -((z2.re - z1.re) * (z3.im - z1.im) - (z3.re - z1.re) * (z2.im - z1.im))
+        * (dist2 (z4.re, z4.im) (circleThrough (z1.re, z1.im) (z2.re, z2.im) (z3.re, z3.im)).1
+           - (circleThrough (z1.re, z1.im) (z2.re, z2.im) (z3.re, z3.im)).2) := by
+  have two : (2 : K) ≠ 0 := two_ne_zero
+  unfold crossRatio wedge
+  simp only [one_mul, mul_one]
+  rw [div_eq_mul_inv]
+  simp only [mul_im, mul_re, inv_re, inv_im, sub_re, sub_im]
+  unfold dist2 circleThrough
+  simp only
+  generalize hD : (z2.re - z1.re) * (z3.im - z1.im) - (z3.re - z1.re) * (z2.im - z1.im) = D at *
+  unfold normSq at hden ⊢
+  simp only [mul_re, mul_im, sub_re, sub_im] at hden ⊢
+  generalize hN : ((z4.re - z1.re) * (z3.re - z2.re) - (z4.im - z1.im) * (z3.im - z2.im)) * ((z4.re - z1.re) * (z3.re - z2.re) - (z4.im - z1.im) * (z3.im - z2.im)) + ((z4.re - z1.re) * (z3.im - z2.im) + (z4.im - z1.im) * (z3.re - z2.re)) * ((z4.re - z1.re) * (z3.im - z2.im) + (z4.im - z1.im) * (z3.re - z2.re)) = N at *
+  field_simp
+  rw [← hD]
+  ring
+
+
+/-- a finite point lies on `circle_through(z1, z2, z3)` iff its cross-ratio with the triple is real -/
+theorem onCircle_iff (z1 z2 z3 z4 : Cx K)
+    (hdet : (z2.re - z1.re) * (z3.im - z1.im) - (z3.re - z1.re) * (z2.im - z1.im) ≠ 0)
+    (hden : normSq ((z4 - z1) * (z3 - z2)) ≠ 0) :
+    OnCircle (1, z1) (1, z2) (1, z3) (1, z4) ↔
+      dist2 (z4.re, z4.im) (circleThrough (z1.re, z1.im) (z2.re, z2.im) (z3.re, z3.im)).1
+        = (circleThrough (z1.re, z1.im) (z2.re, z2.im) (z3.re, z3.im)).2 := by
+  have h := crossRatio_im_circle z1 z2 z3 z4 hdet hden
+  unfold OnCircle
+  constructor
+  · intro h0
+    rw [h0, zero_mul] at h
+    have := (mul_eq_zero.1 h.symm).resolve_left (neg_ne_zero.2 hdet)
+    linarith
+  · intro h0
+    rw [h0, sub_self, mul_zero] at h
+    exact (mul_eq_zero.1 h).resolve_right hden
+
+/-- two finite points are on the same side of the boundary circle in the cross-ratio sense iff
+they are both inside or both outside the Euclidean circle -/
+theorem sameSide_iff (z1 z2 z3 q q' : Cx K)
+    (hdet : (z2.re - z1.re) * (z3.im - z1.im) - (z3.re - z1.re) * (z2.im - z1.im) ≠ 0)
+    (hden : normSq ((q - z1) * (z3 - z2)) ≠ 0) (hden' : normSq ((q' - z1) * (z3 - z2)) ≠ 0) :
+    SameSide (1, z1) (1, z2) (1, z3) (1, q) (1, q') ↔
+      0 < (dist2 (q.re, q.im) (circleThrough (z1.re, z1.im) (z2.re, z2.im) (z3.re, z3.im)).1
+            - (circleThrough (z1.re, z1.im) (z2.re, z2.im) (z3.re, z3.im)).2)
+        * (dist2 (q'.re, q'.im) (circleThrough (z1.re, z1.im) (z2.re, z2.im) (z3.re, z3.im)).1
+            - (circleThrough (z1.re, z1.im) (z2.re, z2.im) (z3.re, z3.im)).2) := by
+  have h := crossRatio_im_circle z1 z2 z3 q hdet hden
+  have h' := crossRatio_im_circle z1 z2 z3 q' hdet hden'
+  have hN : 0 < normSq ((q - z1) * (z3 - z2)) := lt_of_le_of_ne (normSq_nonneg _) (Ne.symm hden)
+  have hN' : 0 < normSq ((q' - z1) * (z3 - z2)) := lt_of_le_of_ne (normSq_nonneg _) (Ne.symm hden')
+  unfold SameSide
+  generalize (crossRatio (1, z1) (1, z2) (1, z3) (1, q)).im = a at *
+  generalize (crossRatio (1, z1) (1, z2) (1, z3) (1, q')).im = a' at *
+  generalize normSq ((q - z1) * (z3 - z2)) = N at *
+  generalize normSq ((q' - z1) * (z3 - z2)) = N' at *
+  generalize (z2.re - z1.re) * (z3.im - z1.im) - (z3.re - z1.re) * (z2.im - z1.im) = D at *
+  generalize dist2 (q.re, q.im) (circleThrough (z1.re, z1.im) (z2.re, z2.im) (z3.re, z3.im)).1
+    - (circleThrough (z1.re, z1.im) (z2.re, z2.im) (z3.re, z3.im)).2 = S at *
+  generalize dist2 (q'.re, q'.im) (circleThrough (z1.re, z1.im) (z2.re, z2.im) (z3.re, z3.im)).1
+    - (circleThrough (z1.re, z1.im) (z2.re, z2.im) (z3.re, z3.im)).2 = S' at *
+  have key : (a * a') * (N * N') = (D * D) * (S * S') := by
+    calc (a * a') * (N * N') = (a * N) * (a' * N') := by ring
+      _ = (-D * S) * (-D * S') := by rw [h, h']
+      _ = _ := by ring
+  have hNN : 0 < N * N' := mul_pos hN hN'
+  have hDD : 0 < D * D := mul_self_pos.2 hdet
+  constructor
+  · intro ha
+    have : 0 < (D * D) * (S * S') := by rw [← key]; exact mul_pos ha hNN
+    exact (mul_pos_iff_of_pos_left hDD).1 this
+  · intro hs
+    have : 0 < (a * a') * (N * N') := by rw [key]; exact mul_pos hDD hs
+    exact (mul_pos_iff_of_pos_right hNN).1 this
+
+end side
+
+/-! ## non-vacuity -/
+
+/-- a point of the unit sphere in the second chart (`z > 0`) -/
+example : ((2 : ℚ) / 3) * (2 / 3) + (1 / 3) * (1 / 3) + (2 / 3) * (2 / 3) = 1 ∧ (0 : ℚ) < 2 / 3 := by
+  norm_num
+
+/-- a unit direction and non-zero radius for `disk_params`; three non-collinear points -/
+example : ((3 : ℚ) / 5) * (3 / 5) + (4 / 5) * (4 / 5) = 1 := by norm_num
+
+/-- an invertible boundary pair for the inversion theorems -/
+example : (M2.ofRows ((1 : ℚ), (2 : ℚ)) (1, -1)).det ≠ 0 := by
+  simp [M2.det, M2.ofRows]; norm_num
+
+/-- every bounded/unbounded combination occurs in the mask theorems -/
+example : containsElem [true, false, false, true] [true, true, false, false]
+    [true, false, false, false] [false, false, true, false] [true, false, true, true]
+    = .ok [true, true, true, false] := by decide
+
+end GT.C20
